@@ -297,3 +297,39 @@ Proof. exact est_source_normed. Qed.
 Print Assumptions C07_cursor_reset_is_fresh.
 Print Assumptions C07_cursor_reuse_json_refuted.
 Print Assumptions C07_merged_norms_agree.
+
+(* ---- grouping of a document's values by field; positions across the values of a multi-valued field -------- *)
+From TV Require Import Postings.Grouping.
+
+(* index_document groups the (field, value) pairs with a STABLE sort by field: the group of a field lists that
+   field's values in the order in which they were added, wherever the other fields' values were added in between *)
+Theorem C07_grouping_stable : forall (A : Type) f (doc : list (N * A)),
+  grouped_values f doc = field_values f doc /\ sorted_keys (sort_stable doc).
+Proof. exact (fun A f doc => conj (grouped_values_in_document_order f doc) (sort_stable_sorted doc)). Qed.
+
+(* the occurrences (term, position) recorded for a text field: index_text over the field's values in document
+   order, value after value with the position gap *)
+Theorem C07_field_positions_in_document_order : forall f doc,
+  field_occ_impl f doc = group_occ 0 (field_values f doc).
+Proof. exact field_occ_in_document_order. Qed.
+
+(* ... hence they depend only on the sequence of that field's values *)
+Theorem C07_field_positions_depend_on_own_values : forall f d1 d2,
+  field_values f d1 = field_values f d2 -> field_occ_impl f d1 = field_occ_impl f d2.
+Proof. exact field_occ_depends_on_own_values. Qed.
+
+Theorem C07_field_positions_ignore_other_fields : forall f g v (d1 d2 : rawdoc),
+  g <> f -> field_occ_impl f (d1 ++ (g, v) :: d2) = field_occ_impl f (d1 ++ d2).
+Proof. exact field_occ_ignores_other_fields. Qed.
+
+(* the order of a field's own values DOES matter (so an unstable grouping is observable): swapping two values of
+   different lengths moves the positions *)
+Example ex_value_order_matters :
+  field_occ_impl 1 [(1, [([97], 0, 1); ([98], 1, 1)]); (0, [([122], 0, 1)]); (1, [([99], 0, 1)])]
+    = [([97], 0); ([98], 1); ([99], 3)] /\
+  field_occ_impl 1 [(1, [([99], 0, 1)]); (0, [([122], 0, 1)]); (1, [([97], 0, 1); ([98], 1, 1)])]
+    = [([99], 0); ([97], 2); ([98], 3)].
+Proof. vm_compute. split; reflexivity. Qed.
+
+Print Assumptions C07_grouping_stable.
+Print Assumptions C07_field_positions_depend_on_own_values.
